@@ -725,7 +725,7 @@ def rule_N5(ctx):
     prog = ctx.prog
     ctx.rule("N5", "Newick writer: text built in the post-order hook; `(children joined by ,)name` for inner vertices, `name` for leaves; appended once to the parent's list unless root; root text + `;`; parent map and names from the tree's index->name map", 11)
     cls = prog.cls("tree.visitors.GraphToNewickVisitor")
-    if not any("DFSVisitor" in b for b in cls.bases):
+    if not any("DFSVisitor" in b for c in prog.mro(cls) for b in c.bases):
         raise AnalysisError("GraphToNewickVisitor is no longer a rustworkx DFSVisitor")
     # the hook that finishes the text
     writers = [m for m in cls.methods.values() if m.name != "__init__" and any(isinstance(n, ast.Attribute) and n.attr == "final_string" and isinstance(n.ctx, ast.Store) for n in ast.walk(m.node))]
